@@ -307,7 +307,7 @@ def run_accumulator_deep(case):
                     states += 1
                     nxt.append((work2, ref2, nnew + (1 if name == "new" else 0), h2))
             frontier = nxt
-        nt = ("deep-n%d-L%s-%s" % (n, L, convention)) if (flushes or grows) else None
+        nt = ("deep-n%d-L%s-%s-k%d" % (n, L, convention, prefix)) if (flushes or grows) else None
         return res(list(violations.values()), nt=nt,
                    out="flush=%d grow=%d levels=%d" % (min(flushes, 1), min(grows, 1), max_level),
                    st=states, tr=transitions)
@@ -396,6 +396,210 @@ def run_chunks(case):
 
 # ---------------------------------------------------------------------------------------------
 
+# ---------------------------------------------------------------------------------------------
+# (d) schedules of the dask fan-out under the controlled scheduler
+# ---------------------------------------------------------------------------------------------
+SCHED_POINTS = ["coo_append", "coo_sum_duplicates", "merge_all_sum_duplicates", "em_update_matrix"]
+
+
+def run_schedules(case):
+    import importlib
+    import vectorizers as V
+    from vmc import sched as S
+    from checks.c03 import build_estimator, make_corpus
+    kind, docs, nth, n_iter, bound = case["kind"], case["docs"], case["n_threads"], case["n_iter"], case["bound"]
+    modname = {"token": "token_cooccurrence_vectorizer", "timed": "timed_token_cooccurrence_vectorizer",
+               "multiset": "multi_token_cooccurence_vectorizer", "ngram": "ngram_token_cooccurence_vectorizer"}[kind]
+    mod = importlib.import_module("vectorizers." + modname)
+    cfg = dict(radii=[1], kernel="flat", orient="directional", normwin=True, n_iter=n_iter, epsilon=case.get("epsilon", 0))
+    if kind == "ngram":
+        cfg["ngram"] = 2
+    corpus = make_corpus(kind, docs, [[float(j) for j in range(len(d))] for d in docs])
+    seq = build_estimator(kind, dict(cfg, n_threads=1)).fit_transform(corpus).toarray()
+    ref = [None]
+    outcomes = {}
+    v = {}
+    stats = {"points": 0, "max_decisions": 0}
+
+    def body():
+        return build_estimator(kind, dict(cfg, n_threads=nth)).fit_transform(corpus).toarray()
+
+    def on_exec(result, sched, prefix):
+        key = result.tobytes()
+        outcomes[key] = outcomes.get(key, 0) + 1
+        stats["points"] = max(stats["points"], len(sched.trace))
+        stats["max_decisions"] = max(stats["max_decisions"], len(sched.decisions))
+        if result.shape != seq.shape or not np.allclose(result, seq, rtol=1e-5, atol=1e-7):
+            sig = "schedule-dependent-result:%s" % kind
+            if sig not in v:
+                v[sig] = viol(sig, "schedule %s (choices at the %d decisions) gives a matrix different from the sequential one" % (
+                    [c for (_, c, _) in sched.decisions], len(sched.decisions)), observed=result.tolist(), expected=seq.tolist())
+    try:
+        with S.patched_points(ref, [mod], SCHED_POINTS):
+            # replay guard: the default schedule run twice must produce identical traces
+            r1, s1 = S.run_schedule(body, [], ref)
+            r2, s2 = S.run_schedule(body, [c for (_, c, _) in s1.decisions], ref)
+            if s1.trace != s2.trace or r1.tobytes() != r2.tobytes():
+                return res([viol("harness:replay-diverged", "replaying the recorded default schedule gave a different trace")], out="diverged")
+            n, capped = S.explore(body, ref, bound, on_exec, max_executions=case.get("cap"))
+    except S.ScheduleError as e:
+        return res([viol("harness:schedule-error", "scheduler error: %s" % e)], out="sched-error")
+    if capped:
+        v["harness:capped"] = viol("harness:capped", "exploration stopped at the cap of %s executions" % case.get("cap"))
+    return res(list(v.values()), nt=repr(case), out="outcomes=%d points=%d" % (len(outcomes), stats["points"]), st=len(outcomes), tr=n)
+
+
+def _sched_cases(tier):
+    out = []
+    for kind in ("token", "timed", "multiset", "ngram"):
+        two = ["ab", "ba"] if kind != "multiset" else ["a|b", "b|a"]
+        three = ["ab", "ba", "ab"] if kind != "multiset" else ["a|b", "b|a", "a|b"]
+        if kind == "ngram":
+            two, three = ["aba", "bab"], ["aba", "bab", "aba"]
+        out.append({"kind": kind, "docs": two, "n_threads": 2, "n_iter": 0, "bound": 2 if tier == "quick" else 3})
+        out.append({"kind": kind, "docs": two, "n_threads": 2, "n_iter": 1, "bound": 1 if tier == "quick" else 2})
+        out.append({"kind": kind, "docs": three, "n_threads": 3, "n_iter": 0, "bound": 1 if tier == "quick" else 2})
+        if tier != "quick":
+            out.append({"kind": kind, "docs": two, "n_threads": 2, "n_iter": 2, "epsilon": 0.3, "bound": 1})
+    return out
+
+
+# ---------------------------------------------------------------------------------------------
+# (b) estimator-level lattice: n_threads x coo_initial_memory must not change the result
+# ---------------------------------------------------------------------------------------------
+
+def run_lattice(case):
+    from checks.c03 import build_estimator, make_corpus, est_cells, reference
+    from vmc.ref import cooc as R
+    kind, docs, n_iter = case["kind"], case["docs"], case["n_iter"]
+    cfg = dict(radii=[case["radius"]], kernel="flat", orient="directional", normwin=(n_iter > 0), n_iter=n_iter)
+    if kind == "ngram":
+        cfg["ngram"] = 2
+    corpus = make_corpus(kind, docs, [[float(j) for j in range(len(d))] for d in docs])
+    try:
+        base_est = build_estimator(kind, cfg)
+        base = base_est.fit_transform(corpus)
+    except Exception as e:
+        return res(rej=True, out="rejected:%s" % type(e).__name__)
+    v = []
+    if n_iter == 0:
+        exp = reference(kind, corpus, cfg)[0]
+        bad = R.compare_cells(est_cells(base_est, base, kind), exp)
+        if bad:
+            v.append(viol("baseline-differs-from-definition:%s" % kind, "1 thread / default memory: %s" % (bad,)))
+    ran = 0
+    for nth in case["threads"]:
+        for mem in case["memories"]:
+            c2 = dict(cfg, n_threads=nth)
+            if mem:
+                c2["coo_initial_memory"] = mem
+            try:
+                est = build_estimator(kind, c2)
+                out = est.fit_transform(corpus)
+                t_out = est.transform(corpus * 3)
+            except Exception as e:
+                v.append(viol("exception:%s:%s" % (kind, type(e).__name__), "n_threads=%d coo_initial_memory=%s raised %r (docs %s)" % (nth, mem, e, docs)))
+                continue
+            ran += 1
+            if out.shape != base.shape or not np.allclose(out.toarray(), base.toarray(), rtol=1e-5, atol=1e-7):
+                v.append(viol("depends-on-threads-or-memory:%s" % kind, "n_threads=%d coo_initial_memory=%s changes fit_transform (docs %s)" % (nth, mem, docs),
+                              observed=out.toarray().tolist(), expected=base.toarray().tolist()))
+            if n_iter == 0 and (t_out.shape != base.shape or not np.allclose(t_out.toarray(), 3 * base.toarray(), rtol=1e-5, atol=1e-7)):
+                v.append(viol("transform-of-larger-corpus:%s" % kind, "n_threads=%d coo_initial_memory=%s: transform of the corpus repeated 3 times is not 3x the training matrix" % (nth, mem),
+                              observed=t_out.toarray().tolist(), expected=(3 * base.toarray()).tolist()))
+    return res(v, nt=repr(case), out="ran=%d" % ran, tr=ran, st=1)
+
+
+def _lattice_cases(tier, compiled=False):
+    threads = [1, 2, 3, 5, 8, 16] if tier == "quick" else list(range(1, 17))
+    mems = ["1k", "2k", "64k", None] if tier == "quick" else ["1k", "2k", "4k", "64k", "1M", None]
+    corp = [["abcab", "bca", "cab", "a"], ["aaaa", "bbb", "ab", "ba", "", "abab"], ["ab"], ["abcabcabcabc", "cba"]]
+    if compiled:
+        threads, mems, corp = [2, 16], ["1k", None], corp[:2]
+    for kind in ("token", "timed", "multiset", "ngram"):
+        if compiled and kind == "ngram":
+            continue
+        for docs in corp:
+            d = docs if kind != "multiset" else ["|".join(x) if x else "" for x in docs]
+            for radius in (1, 3):
+                for n_iter in (0, 1):
+                    yield {"kind": kind, "docs": d, "radius": radius, "n_iter": n_iter, "threads": threads, "memories": mems}
+
+
+# ---------------------------------------------------------------------------------------------
+# (e) volumes on both sides of the real thresholds (compiled modes), closed-form expectations
+# ---------------------------------------------------------------------------------------------
+
+def run_volume(case):
+    import vectorizers as V
+    from collections import Counter
+    shape = case["shape"]
+    if shape == "periodic":
+        seq = ["a", "b"] * (case["events"] // 2 + 1)
+        seq = seq[: case["events"] + 1]           # events adjacent pairs
+        train, big = [seq], None
+    elif shape == "distinct":
+        n = case["tokens"]
+        toks = ["t%03d" % i for i in range(n)]
+        seq = []
+        for i in range(n):
+            for j in range(n):
+                seq.append(toks[i])
+                seq.append(toks[j])
+        train, big = [seq], None
+    else:   # fit small, transform large: transform reuses the buffer sizes derived at fit
+        train = [["a", "b", "c"]]
+        big = [(["a", "b", "c", "b"] * (case["events"] // 4 + 1))[: case["events"] + 1]]
+    kw = dict(window_radii=1, window_orientations="after", normalize_windows=False, n_threads=case.get("n_threads", 1))
+    if case.get("memory"):
+        kw["coo_initial_memory"] = case["memory"]
+    try:
+        est = V.TokenCooccurrenceVectorizer(**kw) if case["kind"] == "token" else V.MultiSetCooccurrenceVectorizer(**kw)
+        wrap = (lambda c: c) if case["kind"] == "token" else (lambda c: [[[t] for t in s] for s in c])
+        out = est.fit_transform(wrap(train))
+        data = train
+        if big is not None:
+            out = est.transform(wrap(big))
+            data = big
+    except Exception as e:
+        return res([viol("exception:%s:%s" % (shape, type(e).__name__), "raised %r" % (e,))], out="exc")
+    exp = Counter()
+    for s in data:
+        for a, b in zip(s, s[1:]):
+            exp[(a, b)] += 1
+    lab = est.token_label_dictionary_
+    got = out.tocoo()
+    inv = {i: t for t, i in lab.items()}
+    g = {}
+    for r, c, x in zip(got.row.tolist(), got.col.tolist(), got.data.tolist()):
+        if x:
+            g[(inv[r], inv[c])] = g.get((inv[r], inv[c]), 0) + x
+    v = []
+    if len(g) != len(exp) or any(abs(g.get(k, 0) - x) > 1e-3 * max(1, x) for k, x in exp.items()):
+        diff = [(k, g.get(k, 0), x) for k, x in exp.items() if abs(g.get(k, 0) - x) > 1e-3 * max(1, x)][:4]
+        lost = sum(exp.values()) - sum(g.values())
+        v.append(viol("volume-events-%s:%s:%s" % ("lost" if lost > 0 else "wrong", shape, case["kind"]),
+                      "%d events, %d distinct cells expected; got %d cells, total %s vs %s; first differences (cell, got, expected): %s" % (
+                          sum(exp.values()), len(exp), len(g), sum(g.values()), sum(exp.values()), diff)))
+    return res(v, nt=repr(case), out="cells=%d" % len(exp), tr=sum(exp.values()), st=1)
+
+
+def _volume_cases(tier):
+    T = 65536
+    events = [T - 1, T, T + 1, 2 * T + 1] + ([5 * T + 3] if tier != "quick" else [])
+    for kind in ("token", "multiset"):
+        for ev in events:
+            for mem in (None, "1k", "2M"):
+                yield {"kind": kind, "shape": "periodic", "events": ev, "memory": mem}
+        for n in ((257,) if tier == "quick" else (257, 300)):
+            for mem in (None, "1k", "1M"):
+                for nth in (1, 4):
+                    yield {"kind": kind, "shape": "distinct", "tokens": n, "memory": mem, "n_threads": nth}
+        for ev in (3000, T + 5):
+            for mem in (None, "1k"):
+                yield {"kind": kind, "shape": "fit-small-transform-large", "events": ev, "memory": mem}
+
+
 def subchecks(tier, seed):
     subs = []
     acc = _acc_cases(tier)
@@ -411,6 +615,29 @@ def subchecks(tier, seed):
         describe="BFS over long append histories with up to 63 distinct keys: forced prefix of k new keys (k = 0 and n-4..n+1, i.e. both sides of the fill/growth point) followed by every sequence of length <= %d over {key 0, next new key (fixed non-monotone order), repeat newest, repeat oldest}; pending region canonicalised by sorting; buffer sizes (those _set_coo_sizes can derive) %s"
                  % (dp[1]["depth"], sorted({c["n"] for c in dp})),
         total=len(dp), kind="states", shards=len(dp), nontrivial_rule="configuration in which a flush or growth happened"))
+    sc = _sched_cases(tier)
+    subs.append(Sub(
+        "d_schedules", "I", lambda: iter(sc), run_schedules, total=len(sc), kind="schedules", shards=len(sc), timeout_s=1500,
+        describe="real fit_transform with n_threads 2-3 (and EM iterations) for the four vectorizers; dask tasks run on the controlled executor; scheduling points = calls of coo_append / coo_sum_duplicates / merge_all_sum_duplicates / em_update_matrix; every schedule with <= %d preemptions (2 chunks), <= %d (3 chunks / EM); oracle = sequential result; states = distinct outcomes, transitions = executions"
+                 % (sc[0]["bound"], sc[2]["bound"]),
+        nontrivial_rule="every case (each explores all schedules within its preemption bound)"))
+    lt = list(_lattice_cases(tier))
+    subs.append(Sub(
+        "b_threads_memory_lattice", "I", lambda: iter(lt), run_lattice, total=len(lt), kind="configurations",
+        describe="four vectorizers x corpora x radius{1,3} x n_iter{0,1} x n_threads %s x coo_initial_memory %s: fit_transform equals the (1 thread, default memory) result and the definition; transform of the corpus repeated 3x equals 3x" % (lt[0]["threads"], lt[0]["memories"]),
+        nontrivial_rule="every case"))
+    ltn = list(_lattice_cases(tier, compiled=True))
+    subs.append(Sub(
+        "b_threads_memory_compiled", "N", lambda: iter(ltn), run_lattice, total=len(ltn), kind="configurations", timeout_s=1200,
+        describe="compiled mode (crash isolated): token/timed/multiset x n_threads {2,16} x coo_initial_memory {'1k', default}", nontrivial_rule="every case",
+        crash_sig=lambda case: "abnormal-termination:%s" % case["kind"]))
+    vol = list(_volume_cases(tier))
+    for mode in ("N", "B"):
+        vv = vol if mode == "N" else [c for c in vol if c["kind"] == "token" and c.get("memory") in (None, "1k") and c.get("n_threads", 1) == 1][::2]
+        subs.append(Sub(
+            "e_real_threshold_%s" % mode, mode, (lambda x: (lambda: iter(x)))(vv), run_volume, total=len(vv), kind="volumes", timeout_s=1200,
+            describe="real sort/merge threshold 65536: periodic corpora with 65535/65536/65537/131073(/327683) events on <= 2 cells, corpora with > 65536 distinct cells (257^2 ordered pairs), and transform of a corpus far larger than the fitted one; buffers '1k'..default; expected counts by direct pair counting",
+            nontrivial_rule="every case", crash_sig=lambda case: "abnormal-termination:%s:%s" % (case["shape"], case["kind"])))
     ch = list(_chunk_cases(tier))
     subs.append(Sub(
         "c_chunk_boundaries", "I", lambda: iter(ch), run_chunks,
